@@ -20,7 +20,7 @@ def sample(ctx, bs, n, salt):
     bs = [b for b in bs if len(b) >= 1]
     # behaviours of length 1 are prefixes of the longer ones unless the session was rejected
     full = [b for b in bs if len(b) >= 2]
-    rejected = [b for b in bs if len(b) == 1 and not (b[0].get("post") or {}).get("impl")]
+    rejected = [b for b in bs if len(b) == 1 and (b[0].get("post") or {}).get("impl") == "rejected"]
     rnd = random.Random(ctx.seed * 7919 + salt)
     rnd.shuffle(full)
     rnd.shuffle(rejected)
@@ -38,25 +38,25 @@ def run(ctx):
     # 1. model checking of the design (property clauses vs transcribed mechanism) and, in the same
     #    exploration, export of every behaviour for the replay
     if th:
-        mc = ctx.tlc("AccessMC", "Access_mc_big.cfg", timeout=3000, coverage=True, constants=consts,
+        mc = ctx.tlc("AccessMC", "Access_mc_big.cfg", timeout=3000, coverage=True, constants=consts, heap="6g",
                      name="policy space (<=2 bits) + token space (<=3 deviations)")
         ctx.require_model_ok(mc, INVS)
-        mt = ctx.tlc("AccessMCBig", "Access_mc_tok_big.cfg", timeout=3000, constants=consts, name="full token product")
+        mt = ctx.tlc("AccessMCBig", "Access_mc_tok_big.cfg", timeout=3000, constants=consts, heap="6g", name="full token product (decisive values)")
         ctx.require_model_ok(mt, INVS)
-        m3 = ctx.tlc("AccessMC", "Access_mc3_big.cfg", timeout=3000, constants=consts, name="three-bit sets")
+        m3 = ctx.tlc("AccessMC", "Access_mc3_big.cfg", timeout=3000, constants=consts, heap="6g", name="three-bit sets")
         ctx.require_model_ok(m3, INVS)
         # the code before the repair of the presort-tag hole: the clause must fire at design level
         d = ctx.tlc("AccessMC", "Access_defect.cfg", timeout=900, name="pre-fix design (must violate)",
-                    expect_violation=True, record=False)
+                    expect_violation=True, record=False, heap="4g")
         if d.violated != "invariant:EditKeepsPresort":
             raise Infra("EditKeepsPresort is not live: the pre-fix transcription gives %s" % d.violated)
     beh = ctx.tlc("AccessMC", "Access_beh_big.cfg" if th else "Access_beh.cfg", timeout=3000 if th else 900,
-                  name="families tok/view/rename/attr: invariants + behaviour export", constants=consts)
+                  name="families tok/view/rename/attr: invariants + behaviour export", constants=consts, heap="6g")
     ctx.require_model_ok(beh, INVS)
     ctx.ev.set("exhaustive", True)
 
     # 2. S->I
-    take = sample(ctx, beh.behaviours, 40000 if th else 8000, 0)
+    take = sample(ctx, beh.behaviours, 25000 if th else 8000, 0)
     res, out, rc = ctx.go_test("internal/api", "TestVerifC30Replay", inp=take, timeout=1800)
     res = ctx.need_result(res, out, rc, "TestVerifC30Replay")
     ctx.ev.set("code_constants", res.get("consts", {}))
@@ -95,8 +95,8 @@ def run(ctx):
     for s in (res.get("samples") or [])[:3]:
         ctx.ev.sample(s)
     ctx.ev.assume("token acceptance is a necessary condition ('only if'): a token is flagged only when accepted against a "
-                  "clause, or rejected although it satisfies the strictest reading (kind header, iat present, nbf <= now)")
-    ctx.ev.assume("nbf inside the 5 s tolerance, missing iat, missing kind header: either decision keeps the property")
+                  "clause, or rejected although it satisfies the strictest reading (kind header, nbf, iat, exp present and inside the window without the tolerance)")
+    ctx.ev.assume("a time claim inside the 5 s tolerance or absent (nbf, iat), missing kind header: either decision keeps the property")
     ctx.ev.assume("'for a user' = non-empty user in vkuth_data (service tokens name a user too)")
     ctx.ev.assume("raw-tag attribute = tag is raw (raw kind non-empty); a change of the raw format is not covered")
     ctx.ev.assume("remote-config metrics = the four names of format.RemoteConfigMetric at the pinned commit")
